@@ -172,8 +172,11 @@ impl C12c {
                 let a = RepliconTick::new(tk);
                 for d in [1u32, 2, 63, 64, 65, 1 << 20, (1 << 31) - 1] {
                     let b = RepliconTick::new(tk.wrapping_add(d));
-                    if !(a < b) || !(b > a) {
-                        out.push((i, "tick_order".into(), format!("{tk} is not ordered before {tk}+{d}")));
+                    if !(a < b) || !(b > a) || a == b || b <= a || a.cmp(&b) != core::cmp::Ordering::Less || b.cmp(&a) != core::cmp::Ordering::Greater {
+                        out.push((i, "tick_order".into(), format!("{tk} is not ordered strictly before {tk}+{d}")));
+                    }
+                    if b - a != d || a != RepliconTick::new(tk) || a.cmp(&a) != core::cmp::Ordering::Equal {
+                        out.push((i, "tick_order".into(), format!("distance / equality of {tk} and {tk}+{d} is wrong")));
                     }
                 }
                 if out.len() > 4 {
